@@ -25,12 +25,22 @@
    looked at an unwritten internal root), records whose leaf is not in W are redone on the old
    leaf in log order with the original result; records older than the file are inert on the mix.
 
-   FINDING made by this proof (C04_lastkey_stale): the recovered ROW-ID COUNTER can be stale. When
-   an insert record is skipped by the page-LSN test (its leaf - being the root - was written, the
-   header was not), replay `continue`s before `if row.cellID > fs.lastKey`, so lastKey keeps the
-   old header value although the key is in the tree: the next INSERT is refused once with
-   "record already exists". Tables are right (C04_partial), C02's clause "never reuses a row id /
-   later statements behave as on an uncrashed database" is not, after such a torn flush. *)
+   The recovered system also satisfies C02's invariants again - every key and separator is at
+   most the row-id counter, every page LSN is below the LSN counter, every log record is inert
+   on it - so C02's and C03's theorems (no id reuse, idempotent recovery, further statements,
+   further crashes, further torn flushes) apply after it (C04_ids_after_torn_flush,
+   C04_continues; C04_second_crash: a crash inside the flush that ends that very recovery): `hist_ok` admits `EvTornFlush W` for any W; if the model has no torn file
+   for W the step fails and the history ends there.
+
+   DEFECT FOUND BY THIS PROOF ATTEMPT AND REPAIRED (/repo commit fd49896, model: `bump_key` in
+   Model/Engine.v): replay used to advance the row-id counter only for insert records it actually
+   re-applied or found present; a record SKIPPED by the page-LSN test (its leaf - being the root -
+   was written by the torn flush, the header was not) left lastKey at the stale header value, and
+   the next INSERT was refused once with "record already exists" (history: CREATE TABLE t;
+   INSERT 1; flush; INSERT 2; torn flush writing t's leaf only; recovery; INSERT 3 -> error). The
+   invariant "keys <= lastKey after recovery" was unprovable for the torn state, which exposed it.
+   Now the counter is raised for every insert record before the skip test, and the invariant is
+   proved (C04_ids_after_torn_flush); C04_no_stale_ids replays the old failing history. *)
 From Coq Require Import List NArith ZArith String.
 From Mkdb Require Import Model.Engine Proofs.TreeProofs Proofs.StoreInv Proofs.CrashBase Proofs.CrashPages
   Proofs.CrashRedo Proofs.CrashLog Proofs.CrashMain Proofs.CrashPrefix Proofs.CrashHist Proofs.CrashTorn
@@ -44,10 +54,64 @@ Theorem C04_partial : forall evs y os W d,
              seq (mem y') (mem y) /\ abs (mem y') = abs (mem y).
 Proof.
   intros evs y os W d H R T.
-  destruct (torn_flush_recovers y W d (ex_intro _ evs (ex_intro _ os (conj H R))) T) as (y' & A & B & C & D).
+  destruct (torn_flush_recovers y W d (ex_intro _ evs (ex_intro _ os (conj H R))) T) as (y' & A & B & C & D & _).
   eauto 6.
 Qed.
 Print Assumptions C04_partial.
+
+(* after the torn-flush recovery: C11's invariant, every key and separator <= lastKey (the next
+   INSERT gets a fresh id), every page LSN < nextLSN (the next record is not skipped) *)
+Theorem C04_ids_after_torn_flush : forall evs y os W y',
+  hist_ok init_sys evs -> run_events init_sys evs = (SOk y, os) -> step y (EvTornFlush W) = (SOk y', None) ->
+  SInv (mem y') /\
+  Forall (fun t => Forall (fun k => k <= lastKey (mem y')) (tree_keys t)) (forest (mem y')) /\
+  Forall (fun t => Forall (fun n => t_lsn n < nextLSN (mem y')) (nodes t)) (forest (mem y')).
+Proof.
+  intros evs y os W y' H R Hs. cbn [step] in Hs. destruct (torn_disk y W) as [d|] eqn:T; [|discriminate].
+  destruct (torn_flush_recovers y W d (ex_intro _ evs (ex_intro _ os (conj H R))) T) as (y2 & A & _ & _ & _ & G & _).
+  rewrite A in Hs. inversion Hs; subst y2. destruct G as [[Gw Gn Gk] [_ Gl]].
+  split; [constructor; assumption|]. split; assumption.
+Qed.
+Print Assumptions C04_ids_after_torn_flush.
+
+(* the recovered system is a system of C02's / C03's / C04's theorems again *)
+Theorem C04_continues : forall evs y os W y',
+  hist_ok init_sys evs -> run_events init_sys evs = (SOk y, os) -> step y (EvTornFlush W) = (SOk y', None) ->
+  exists os', hist_ok init_sys (evs ++ [EvTornFlush W]) /\ run_events init_sys (evs ++ [EvTornFlush W]) = (SOk y', os').
+Proof.
+  intros evs y os W y' H R Hs.
+  assert (G : forall evs y0 os0, hist_ok y0 evs -> run_events y0 evs = (SOk y, os0) ->
+              exists os', hist_ok y0 (evs ++ [EvTornFlush W]) /\ run_events y0 (evs ++ [EvTornFlush W]) = (SOk y', os')).
+  { clear evs os H R. induction evs as [|ev r IH]; intros y0 os0 Hok Hr.
+    - cbn in Hr. inversion Hr; subst y0. cbn [app hist_ok run_events ev_ok]. rewrite Hs.
+      eexists. split; [split; [exact I | exact I] | reflexivity].
+    - cbn [hist_ok] in Hok. destruct Hok as [Hev Hrest]. cbn [run_events] in Hr.
+      destruct (step y0 ev) as [[y2|e|] o] eqn:Es; try discriminate.
+      destruct (run_events y2 r) as [fin os'] eqn:Er. inversion Hr; subst.
+      destruct (IH y2 os' Hrest Er) as (os2 & A1 & B1).
+      cbn [app hist_ok run_events]. rewrite Es, B1. eexists. split; [split; [exact Hev | exact A1] | reflexivity]. }
+  exact (G evs init_sys os H R).
+Qed.
+Print Assumptions C04_continues.
+
+(* a second crash, inside the flush that ends that recovery (InitStorage = replay, then flushPages
+   of the replayed cache g' onto the torn file d): the file it leaves after writing the pages W2 is
+   the file a single torn flush of the original system would have left with W ++ W2 written - so
+   C04_partial covers the restart after it *)
+Theorem C04_second_crash : forall evs y os W d g' W2 d2,
+  hist_ok init_sys evs -> run_events init_sys evs = (SOk y, os) ->
+  torn_disk y W = Some d -> replay d (wal y) = RCont g' ->
+  torn_disk (mkSys g' d (wal y)) W2 = Some d2 ->
+  torn_disk y (W ++ W2) = Some d2 /\
+  exists y', recover (mkSys d2 d2 (wal y)) = Ok y' /\ seq (mem y') (mem y) /\ abs (mem y') = abs (mem y).
+Proof.
+  intros evs y os W d g' W2 d2 H R T Hr T2.
+  pose proof (ex_intro _ evs (ex_intro _ os (conj H R)) : reachable_c y) as Hy.
+  destruct (reachable_inv2 y Hy) as [HI HT].
+  pose proof (torn_twice y W d g' W2 d2 HI HT T Hr T2) as T3. split; [exact T3|].
+  destruct (torn_flush_recovers y (W ++ W2) d2 Hy T3) as (y' & A & B & C & _). eauto.
+Qed.
+Print Assumptions C04_second_crash.
 
 (* the replay-level core, for any store pair: dsk = the old file (clean pages, C11's invariant, LSN
    discipline), m = the cache, `old` = records inert on dsk, `new` = records whose in-place replay
@@ -117,17 +181,18 @@ Proof.
   intros W HW. repeat (destruct HW as [<-|HW]; [eexists; vm_compute; reflexivity|]). destruct HW.
 Qed.
 
-(* ---- the finding: after an in-place torn flush the row-id counter can be stale ---- *)
+(* ---- the history that exposed the stale row-id counter, now correct: after the torn flush that
+   wrote t's only leaf but not the header, the counter is restored from the (skipped) insert
+   record and the next INSERT succeeds ---- *)
 Definition ex_stale : list event :=
   [EvStmt (SCreateTable "t" [mkColDef "a" STNumeric]); ins "t" 1; EvFlush; ins "t" 2].
 
-Example C04_lastkey_stale :
+Example C04_no_stale_ids :
   exists y os y', run_events init_sys ex_stale = (SOk y, os) /\ hist_ok init_sys ex_stale /\
     step y (EvTornFlush [12288]%N) = (SOk y', None) /\
-    abs (mem y') = abs (mem y) /\                       (* tables restored (C04_partial) *)
-    lastKey (mem y) = 12 /\ lastKey (mem y') = 11 /\    (* but the counter is the old header's *)
-    e_out (run_stmt (mem y) (SInsert "t" [] [[VInt 3]])) = OOk 1 /\
-    e_out (run_stmt (mem y') (SInsert "t" [] [[VInt 3]])) = OErr EKeyExists.
+    abs (mem y') = abs (mem y) /\
+    lastKey (disk y) = 11 /\ lastKey (mem y) = 12 /\ lastKey (mem y') = 12 /\
+    e_out (run_stmt (mem y') (SInsert "t" [] [[VInt 3]])) = OOk 1.
 Proof.
   destruct (run_events init_sys ex_stale) as [fin os] eqn:E.
   vm_compute in E. inversion E; subst. eexists _, _, _. split; [reflexivity|].
